@@ -1,6 +1,7 @@
 (* C06 — LLO state changes need more than f votes or a verified attestation. *)
 From stdpp Require Import gmap.
 From DS Require Import Base Decimal StreamValue Aggregators Outcome OutcomeProofs StepTheorems NvHistory.
+From DS Require OutcomeEndToEnd ReportsNoPanic NvE2E.
 Open Scope Z_scope.
 
 (* a channel is added, replaced or removed only with more than f votes for exactly that change
@@ -49,6 +50,30 @@ Theorem C06_retired_ignores_votes : forall h cf seq prev aos next,
   o_stage next = Retired /\ o_defs next = o_defs prev.
 Proof. exact retired_ignores_votes. Qed.
 Print Assumptions C06_retired_ignores_votes.
+
+(* end to end (OutcomeEndToEnd): senders are correct nodes — ObservationCodec.plugin_observation of their inputs, marshalled in
+   any map order — or arbitrary bytes, at most f of the latter; every change of the channel set traces back to the
+   channel-definitions cache of some correct node: a removed channel is absent from it, an added or replaced definition is
+   exactly what it holds *)
+Theorem C06_def_change_traces_to_correct_cache :
+  forall h check codec_ok cf seq prev_bytes (ss : list OutcomeEndToEnd.lsender) prev next c,
+  ReportsNoPanic.bok prev_bytes -> OutcomeEndToEnd.lsenders_ok codec_ok cf seq prev_bytes ss -> 1 < seq ->
+  outcome_step h cf seq prev (map fst (OutcomeEndToEnd.tagged check codec_ok cf seq prev_bytes ss)) = Ok next ->
+  (length (List.filter (fun p : option observation * bool => negb (snd p)) (OutcomeEndToEnd.tagged check codec_ok cf seq prev_bytes ss)) <= c_f cf)%nat ->
+  o_defs next !! c <> o_defs prev !! c ->
+  exists i, (exists rms ups vals, In (OutcomeEndToEnd.LCorrect i rms ups vals) ss) /\
+            ((o_defs next !! c = None /\ OutcomeEndToEnd.oi_expected i !! c = None) \/
+             (exists d, o_defs next !! c = Some d /\ OutcomeEndToEnd.oi_expected i !! c = Some d)).
+Proof. exact OutcomeEndToEnd.llo_def_change_traces_to_correct_cache. Qed.
+Print Assumptions C06_def_change_traces_to_correct_cache.
+
+Example C06_nv_end_to_end :
+  ReportsNoPanic.bok NvE2E.e6_prev_bytes /\ OutcomeEndToEnd.lsenders_ok (fun _ => true) nv_cf 2 NvE2E.e6_prev_bytes NvE2E.e6_ss /\
+  (length (List.filter (fun p : option observation * bool => negb (snd p)) NvE2E.e6_tagged) <= c_f nv_cf)%nat /\
+  match outcome_step nv_h nv_cf 2 p1 (map fst NvE2E.e6_tagged) with
+  | Ok next => o_defs next !! 7 = Some nv_def /\ o_defs p1 !! 7 = None
+  | _ => False end.
+Proof. exact NvE2E.e6_round. Qed.
 
 (* non-vacuity: channel 7 added with 3 > f = 1 votes; while retired 3 votes to remove 7 / add 8 change nothing *)
 Example C06_nv :
